@@ -26,6 +26,48 @@ CHECKS = {
         "independent math.comb ranking. Exhaustive inside the box, plus the int32 frontier vectors per d.",
         "Trusted: Python big integers and math.comb; the box bounds; beyond the box only frontier vectors are examined.",
     ),
+    "C02": (
+        "model_checking",
+        "DESIGN.md 2.6, 3/C02",
+        "stateless exhaustive enumeration of every execution path of every sampler under a harness-owned RNG (choice points with exact probabilities, symbolic uniforms, Gauss-Hermite lattice answers for normal draws), path law compared with an independent exact Born law",
+        "Every path of simulator.execute under the owned randomness is executed once on the real code with its exact probability; the sum of path "
+        "probabilities per sample tuple must equal the exact outcome law of an independent reference (permanents on the unitary dilation, "
+        "permutation-sum / internal-mode law, symplectic Gaussian reference, dense Fock reference) to 1e-9, explored mass must be 1, and sample "
+        "tuples must have one entry per measured quantity in program order. Covers the passive samplers (lossless, uniform / non-uniform loss, "
+        "post-selection, uniform and Gram-matrix overlap, marginal and projected paths), Fock / fermionic PNM, imperfect detectors, Gaussian "
+        "threshold, general-dyne argument check, Gaussian PNM (d<=2) and Fock homodyne.",
+        "Trusted: numpy.random.Generator.multivariate_normal / normal themselves (their arguments are checked), the reference laws in mc/refmodel, "
+        "Gauss-Hermite quadrature (two orders must agree, else exit 2). Cells over the per-case path budget are counted, not explored.",
+    ),
+    "C15": (
+        "exploration",
+        "DESIGN.md 3/C15",
+        "bounded-exhaustive enumeration of structured degenerate matrix families (all permutations x phase diagonals, all block sums, all symmetric matrices over {0,1,i}, all multiplicity patterns, all graphs on <=5 vertices) against reconstruction identities",
+        "Every matrix of every structured family is decomposed by the library's own clements / takagi / williamson / euler / Graph code and the "
+        "factors are checked: reconstruction to 1e-9*scale, unitarity, non-negativity, symplecticity, instruction lists executed on the passive and "
+        "Fock simulators, weight-vector round trip, requested mean photon number. Exhaustive inside each family.",
+        "Continuous parameters only on lattices plus a few seeded generic entries (which decide nothing alone); NumPy connector only.",
+    ),
+    "C17": (
+        "model_checking",
+        "DESIGN.md 3/C17",
+        "lock-step explicit-state BFS over the two fermionic simulators and a Jordan-Wigner reference from all 2^d occupation inputs, invariants and agreement checked on every transition",
+        "Roots are all 2^d number states; every action of a finite alphabet (Interferometer catalogue, Beamsplitter, Phaseshifter, Squeezing2, "
+        "IsingXX on every window and every other ordered pair, GaussianHamiltonian lattice) is executed on both simulators through the public path "
+        "and on a dense Jordan-Wigner reference; in every state covariance matrices, occupation probabilities, parity / particle-number "
+        "conservation, exclusion and the correlation spectrum are compared (1e-9).",
+        "Finite parameter catalogue; depth <= 2 (quick) / 3 (thorough); the reference fixes conventions where docstrings contradict each other "
+        "(listed in the evidence assumptions).",
+    ),
+    "C19": (
+        "model_checking",
+        "DESIGN.md 3/C19",
+        "explicit-state BFS over Qiskit circuits (state = classical-bit law + qubit state vector), every transition translated with dual_rail_encode_from_qiskit and executed with shots=None, joint law compared with a qubit state-vector reference",
+        "Every circuit reachable within the depth bound over the supported gate set (incl. measure in any order, if_test / else blocks, multi-qubit "
+        "blocks) is translated, executed exactly (shots=None) at two cutoffs, decoded on the code space and compared with the exact joint law of "
+        "the qubit reference; tolerance 1e-9 without entangling gates and a derived KLM budget per entangling gate.",
+        "At most 2 entangling gates per circuit and Fock dimension caps (by construction, reported); angles from a finite set; depth 3-4, not 8.",
+    ),
 }
 
 NOT_APPLICABLE = {}
